@@ -398,6 +398,58 @@ mod not_wasm_scheduler {
   }
 }
 
+/// Verification hook (cargo feature `verif_hooks`, off by default): schedulers
+/// whose `schedule` is the library's own code (`impl_scheduler_method!`,
+/// `remote_handle`, `Remote::poll`) but whose spawn just appends the future to a
+/// queue owned by the caller, so that a test harness decides which ready task
+/// is polled next.
+#[cfg(feature = "verif_hooks")]
+pub mod verif {
+  use super::*;
+  use std::{
+    cell::RefCell,
+    rc::Rc,
+    sync::{Arc, Mutex},
+  };
+
+  pub type LocalTask = Pin<Box<dyn Future<Output = ()>>>;
+  pub type SharedTask = Pin<Box<dyn Future<Output = ()> + Send>>;
+
+  #[derive(Clone, Default)]
+  pub struct VerifScheduler(pub Rc<RefCell<Vec<Option<LocalTask>>>>);
+
+  #[derive(Clone, Default)]
+  pub struct VerifSchedulerThreads(pub Arc<Mutex<Vec<Option<SharedTask>>>>);
+
+  macro_rules! verif_local_spawn {
+    ($pool: ident, $future: ident) => {
+      $pool.0.borrow_mut().push(Some(Box::pin($future)))
+    };
+  }
+
+  macro_rules! verif_shared_spawn {
+    ($pool: ident, $future: ident) => {
+      $pool.0.lock().unwrap().push(Some(Box::pin($future)))
+    };
+  }
+
+  impl<T> Scheduler<T> for VerifScheduler
+  where
+    T: Future + 'static,
+    T::Output: TaskReturn,
+  {
+    impl_scheduler_method!(verif_local_spawn);
+  }
+
+  impl<T> Scheduler<T> for VerifSchedulerThreads
+  where
+    T: Future + Send + 'static,
+    T::Output: TaskReturn + Send + 'static,
+  {
+    impl_scheduler_method!(verif_shared_spawn);
+  }
+}
+
 #[cfg(all(test, not(target_arch = "wasm32"), feature = "tokio-scheduler"))]
 mod test {
   use crate::{ops::complete_status::CompleteStatus, prelude::*};
